@@ -9,11 +9,11 @@ from vcheck import Case, gz, gzlist, gzmat, gopt, gbool, gblist
 
 PROP = "W4GEN"
 LEVEL = "proof"
-GEN_UNITS = ["GenKtensor4", "GenKtensor4b", "GenSptensor4", "GenSptensor4b", "GenSptensor4c", "GenUtils3", "GenUtils", "GenUtils2", "GenKernels", "GenMethods2"]
-COQ_TARGETS = ["Props/W4C08.vo", "Props/W4C08b.vo", "Props/W4C08c.vo", "Props/W4C08d.vo", "Props/W4C07.vo", "Props/W4C07b.vo", "Props/W4C07c.vo", "Props/W4C04.vo", "Model/W4Harness.vo", "Model/W4Harness2.vo", "Model/Harness.vo"]
-THEOREM_FILES = ["Props/W4C08.v", "Props/W4C08b.v", "Props/W4C08c.v", "Props/W4C08d.v", "Props/W4C07.v", "Props/W4C07b.v", "Props/W4C07c.v", "Props/W4C04.v"]
+GEN_UNITS = ["GenKtensor4", "GenKtensor4b", "GenSptensor4", "GenSptensor4b", "GenSptensor4c", "GenSptensor4d", "GenUtils3", "GenUtils", "GenUtils2", "GenKernels", "GenMethods2"]
+COQ_TARGETS = ["Props/W4C08.vo", "Props/W4C08b.vo", "Props/W4C08c.vo", "Props/W4C08d.vo", "Props/W4C07.vo", "Props/W4C07b.vo", "Props/W4C07c.vo", "Props/W4C07d.vo", "Props/W4C04.vo", "Model/W4Harness.vo", "Model/W4Harness2.vo", "Model/Harness.vo"]
+THEOREM_FILES = ["Props/W4C08.v", "Props/W4C08b.v", "Props/W4C08c.v", "Props/W4C08d.v", "Props/W4C07.v", "Props/W4C07b.v", "Props/W4C07c.v", "Props/W4C07d.v", "Props/W4C04.v"]
 COQ_IMPORTS = ("From Coq Require Import List ZArith Bool.\n"
-               "From PV Require Import Np.NpZ Np.NpZ2 Np.NpZ3 Np.NpZ3c Np.NpZ3d Np.NpZ3e Np.NpZ4 Np.NpZ4b Np.NpZ4c Np.NpZ4d Gen.GenUtils3 Gen.GenKtensor4 Gen.GenKtensor4b Gen.GenSptensor4 Gen.GenSptensor4b Gen.GenSptensor4c Model.Harness Model.W4Sptensor Model.W4Harness2 "
+               "From PV Require Import Np.NpZ Np.NpZ2 Np.NpZ3 Np.NpZ3c Np.NpZ3d Np.NpZ3e Np.NpZ4 Np.NpZ4b Np.NpZ4c Np.NpZ4d Np.NpZ4e Gen.GenUtils3 Gen.GenKtensor4 Gen.GenKtensor4b Gen.GenSptensor4 Gen.GenSptensor4b Gen.GenSptensor4c Gen.GenSptensor4d Model.Harness Model.W4Sptensor Model.W4Harness2 "
                "Model.W4Harness.\n")
 RULE = ("small Kruskal tensors (1-4 modes, 0-4 components, sizes 1-3, integer-valued float data, C- / F-ordered / strided factor "
         "buffers) x every argument family incl. malformed ones (non-permutations, repeated / negative / out-of-range component "
@@ -271,6 +271,37 @@ def gen_cases(rng, tier):
             cases.append(Case("sp_permute", {"t": t, "order": o, "as": rng.choice(["list", "tuple", "arr"]), "layout": lay}, bool(t["subs"])))
         bad = [rng.randint(-N, N + 1) for _ in range(rng.choice([max(N - 1, 0), N, N, N + 1]))]
         cases.append(Case("sp_permute", {"t": t, "order": bad, "as": rng.choice(["list", "arr"]), "layout": lay}, bool(t["subs"])))
+        # boolean orders (/repo 9c8fdd5): 0/1 vectors handed over with dtype bool — the ones that sort to range(N) included
+        bo = rng.choice([p_ for p_ in orders if all(x in (0, 1) for x in p_)] or [[rng.randint(0, 1) for _ in range(N)]])
+        if rng.random() < 0.3:
+            bo = [rng.randint(0, 1) for _ in range(rng.choice([N, N, max(N - 1, 0), N + 1]))]
+        cases.append(Case("sp_permute", {"t": t, "order": bo, "as": rng.choice(["blist", "barr", "btuple"]), "layout": lay}, bool(t["subs"])))
+        # reshape: all modes / a subset (any order) folded into a random factorisation of their element count; malformed:
+        # mode numbers outside [0, N) (negative ones included: /repo b27c529), negative sizes, changed element count
+        for _ in range(3):
+            if rng.random() < 0.4:
+                om, oas = None, "none"
+            else:
+                om = rng.sample(range(N), rng.randint(1 if rng.random() < 0.9 else 0, N))
+                oas = "int" if len(om) == 1 and rng.random() < 0.5 else ("arr" if not om else rng.choice(["list", "arr", "tuple"]))
+            cnt = 1
+            for j in (range(N) if om is None else om):
+                cnt *= t["shape"][j]
+            ns = _factorisation(rng, cnt)
+            r = rng.random()
+            if r < 0.1 and om:
+                om = list(om)
+                om[rng.randrange(len(om))] = rng.choice([-1, -2, -N, N, N + 1])
+                oas = "arr" if oas == "int" and rng.random() < 0.5 else oas
+            elif r < 0.18:
+                ns = ns + [rng.choice([2, 3])] if rng.random() < 0.5 else [d + 1 for d in ns] or [2]
+            elif r < 0.24:
+                ns = [-d for d in ns] if len(ns) % 2 == 0 and ns else [-1] + ns
+            elif r < 0.28 and om:
+                om = list(om) + [om[0]]          # a repeated mode (pyttb does not reject it: model = code)
+                oas = rng.choice(["list", "arr"])
+            cases.append(Case("sp_reshape", {"t": t, "new": ns, "nas": rng.choice(["tuple", "list", "arr"]), "old": om, "oas": oas,
+                                             "layout": lay}, bool(t["subs"])))
         for _ in range(3):
             region = [rand_key(rng, d) for d in t["shape"]]
             if rng.random() < 0.06:
@@ -324,7 +355,40 @@ def gen_cases(rng, tier):
         cases.append(Case("prim4_reshape2", {"v": [rng.randint(-9, 9) for _ in range(vlen)], "a": aa, "b": bb,
                                              "order": rng.choice(["F", "C"])}, True))
         cases.append(Case("prim4_kt_shape", {"kt": rand_kt(rng)}, True))
+        ra, rb = rng.randint(1, 3), rng.randint(1, 3) if rng.random() < 0.8 else 0
+        ma = [[rng.randint(-5, 5) for _ in range(rng.randint(0, 2))] * 1 for _ in range(ra)]
+        wa = len(ma[0])
+        ma = [(row + [0] * wa)[:wa] for row in ma]
+        wb = rng.randint(0, 2)
+        mb = [[rng.randint(-5, 5) for _ in range(wb)] for _ in range(rb if rb else ra)]
+        if rng.random() < 0.75:
+            mb = (mb * 3)[:ra]
+        cases.append(Case("prim5_hstack", {"a": ma, "b": mb, "wa": wa, "wb": wb}, True))
+        cases.append(Case("prim5_ge_s", {"v": [rng.randint(-4, 4) for _ in range(rng.randint(0, 5))], "c": rng.randint(-3, 3)}, True))
     return cases
+
+
+def _factorisation(rng, n):
+    """a random list of sizes with product n (n >= 0); sometimes with extra 1s; [] possible for n = 1"""
+    if n == 0:
+        return [0] + [rng.randint(1, 3) for _ in range(rng.randint(0, 2))]
+    out = []
+    while n > 1:
+        ds = [d for d in range(2, n + 1) if n % d == 0]
+        d = rng.choice(ds) if rng.random() < 0.6 else ds[0]
+        out.append(d)
+        n //= d
+    for _ in range(rng.choice([0, 0, 1, 2])):
+        out.insert(rng.randint(0, len(out)), 1)
+    rng.shuffle(out)
+    if not out and rng.random() < 0.7:
+        out = [1]
+    return out
+
+
+def _order_isbool(a):
+    """dtype of parse_one_d(order) is bool: a boolean ndarray, or a NON-EMPTY list / tuple of Python bools (np.array([]) is float64)"""
+    return a["as"] == "barr" or (a["as"] in ("blist", "btuple") and len(a["order"]) > 0)
 
 
 # ------------------------------------------------------------------------------------------------- pyttb side
@@ -394,9 +458,20 @@ def run_impl(c):
                 return {"ok": {"t": o_}} if o_ is not None else {"bad": "non-integer result"}
             return {"ok": {"v": int(r)}} if float(r) == int(r) else {"bad": "non-integer result"}
         if c.op == "sp_permute":
-            o = {"list": list, "tuple": tuple, "arr": lambda l: np.array(l, dtype=int)}[a["as"]](a["order"])
+            o = {"list": list, "tuple": tuple, "arr": lambda l: np.array(l, dtype=int), "blist": lambda l: [bool(x) for x in l],
+                 "btuple": lambda l: tuple(bool(x) for x in l), "barr": lambda l: np.array(l, dtype=bool)}[a["as"]](a["order"])
             r = obs_spt(np, py_spt(np, ttb, a["t"], a["layout"]).permute(o))
             return {"ok": r} if r is not None else {"bad": "non-integer result"}
+        if c.op == "sp_reshape":
+            mk = {"list": list, "tuple": tuple, "arr": lambda l: np.array(l, dtype=int), "int": lambda l: int(l[0]), "none": lambda l: None}
+            r = obs_spt(np, py_spt(np, ttb, a["t"], a["layout"]).reshape(mk[a["nas"]](a["new"]), mk[a["oas"]](a["old"])))
+            return {"ok": r} if r is not None else {"bad": "non-integer result"}
+        if c.op == "prim5_hstack":
+            A = np.array(a["a"], dtype=int).reshape((len(a["a"]), a["wa"]))
+            B = np.array(a["b"], dtype=int).reshape((len(a["b"]), a["wb"]))
+            return {"ok": _ints(np, np.concatenate((A, B), axis=1))}
+        if c.op == "prim5_ge_s":
+            return {"ok": [bool(x) for x in (np.array(a["v"], dtype=int) >= a["c"])]}
         if c.op == "sp_subdims":
             reg = [py_ix(np, x) for x in a["region"]]
             r = py_spt(np, ttb, a["t"], a["layout"]).subdims(reg if a["as"] == "list" else tuple(reg))
@@ -515,8 +590,17 @@ def coq_check(c, o):
     if c.op == "sp_squeeze":
         return _res("w4_sq_eqb", f"sptensor_squeeze {gspt(a['t'])}", o,
                     lambda r: f"(SqTensor {gspt(r['t'])})" if "t" in r else f"(SqScalar {gz(r['v'])})")
+    if c.op == "sp_reshape":
+        om = "None" if a["old"] is None else f"(Some {gzlist(a['old'])})"
+        return _res("w4_spt_eqb", f"sptensor_reshape {gspt(a['t'])} {gzlist(a['new'])} {om}", o, gspt)
+    if c.op == "prim5_hstack":
+        call = f"{gzmat(a['a'])} {gzmat(a['b'])}"
+        return _guarded(f"np_hstack_ok {call}", f"mat_eqb (np_hstack {call}) {gzmat(o['ok'])}" if "exc" not in o else "", o)
+    if c.op == "prim5_ge_s":
+        return f"bvec_eqb (np_ge_s {gzlist(a['v'])} {gz(a['c'])}) {gblist(o['ok'])}"
     if c.op == "sp_permute":
-        return _res("w4_spt_eqb", f"sptensor_permute {gspt(a['t'])} {gzlist(a['order'])}", o, gspt)
+        isb = "true" if _order_isbool(a) else "false"      # the dtype flag of the generated function (order.dtype == bool)
+        return _res("w4_spt_eqb", f"sptensor_permute {gspt(a['t'])} {gzlist(a['order'])} {isb}", o, gspt)
     if c.op == "sp_subdims":
         gen = f"sptensor_subdims {gspt(a['t'])} {gixlist(a['region'])}"
         ref = f"H_subdims {gspt(a['t'])} {gixlist(a['region'])}"
@@ -690,12 +774,50 @@ def oracle(c, o):
     if c.op == "sp_permute":
         t, order = a["t"], a["order"]
         N = len(t["shape"])
+        if _order_isbool(a):
+            return None if "exc" in o else f"a boolean order {order} was accepted"
         if sorted(order) != list(range(N)):
             return None if "exc" in o else f"a non-permutation {order} of the {N} modes was accepted"
         if "ok" not in o:
             return f"a permutation of the modes was rejected ({o})"
         want = {"subs": [[row[j] for j in order] for row in t["subs"]], "vals": t["vals"], "shape": [t["shape"][j] for j in order]}
         return None if o["ok"] == want else f"permute returned {o['ok']}, expected {want}"
+    if c.op == "sp_reshape":
+        t, ns, om = a["t"], a["new"], a["old"]
+        N = len(t["shape"])
+        old_ = list(range(N)) if om is None else om
+        if len(set(old_)) != len(old_):
+            return None          # a repeated mode: the property does not say what is demanded
+        cnt, cnt2 = 1, 1
+        valid = all(0 <= j < N for j in old_) and all(d >= 0 for d in ns)
+        if valid:
+            for j in old_:
+                cnt *= t["shape"][j]
+            for d in ns:
+                cnt2 *= d
+            valid = cnt == cnt2
+        if valid and ((t["subs"] and not old_) or not ns):
+            # not pinned here: no mode folded (pyttb raises inside numpy for a tensor with entries) / the EMPTY new shape
+            # (pyttb refuses it by a dtype accident: np.concatenate((keep_shape, ())) is float64 — reported to C07 as an observation)
+            return None
+        if not valid:
+            return None if "exc" in o else f"an invalid reshape request (new {ns}, old modes {om}) was accepted"
+        if "ok" not in o:
+            return f"a valid reshape request (new {ns}, old modes {om}) was rejected ({o})"
+        keep = [j for j in range(N) if j not in old_]
+        rows = []
+        for row in t["subs"]:
+            lin, mul = 0, 1
+            for j in old_:
+                lin += row[j] * mul
+                mul *= t["shape"][j]
+            new = []
+            for d in ns:
+                new.append(lin % d)
+                lin //= d
+            rows.append([row[j] for j in keep] + new)
+        want = {"subs": rows, "vals": t["vals"] if t["subs"] else [], "shape": [t["shape"][j] for j in keep] + ns}
+        return None if o["ok"] == want else f"reshape returned {o['ok']}, expected {want}"
     if c.op == "sp_subdims":
         t, region = a["t"], a["region"]
         if len(region) != len(t["shape"]):
